@@ -188,3 +188,37 @@ func VerifHarness_C16_Step() {
 	}
 	vsymReach("C16_step")
 }
+
+// C16-O5: the flag layer.  A flag given on the command line, whatever its
+// value, reaches the parsers as given: an empty --step or --since is a
+// malformed value and is rejected, not silently replaced by the default.
+func VerifHarness_C16_FlagLayer() {
+	t0 := vsymTimeNs(1700000000 * 1e9)
+	step := apiFlagFor[lokiapi.OptPrometheusDuration, *lokiapi.OptPrometheusDuration, lokiapi.PrometheusDuration]("")
+	since := apiFlagFor[lokiapi.OptPrometheusDuration, *lokiapi.OptPrometheusDuration, lokiapi.PrometheusDuration]("6h")
+	vals := []string{"", "5s", "0", "abc", "15"}
+	v := vals[vsymChoice("value", len(vals))]
+	given := vsymBool("given")
+	if given {
+		vsymAssert(step.Set(v) == nil && since.Set(v) == nil, "the flag layer accepts the text; parsing judges it")
+	}
+	d, err := parseStep(*step.Val, t0, t0.Add(time.Hour))
+	switch {
+	case !given:
+		vsymAssert(err == nil && d == 14*time.Second, "an absent --step means the default step")
+	case v == "5s":
+		vsymAssert(err == nil && d == 5*time.Second, "an explicit --step is honoured")
+	case v == "15":
+		vsymAssert(err == nil && d == 15*time.Second, "an explicit --step in plain seconds is honoured")
+	default:
+		vsymAssert(err != nil, "an empty, zero or malformed --step is rejected rather than replaced by the default")
+	}
+	_, _, err = parseTimeRange(t0, lokiapi.OptLokiTime{}, lokiapi.OptLokiTime{}, *since.Val)
+	switch {
+	case !given, v == "5s":
+		vsymAssert(err == nil, "an absent or well-formed --since is accepted")
+	case v == "", v == "abc":
+		vsymAssert(err != nil, "an empty or malformed --since is rejected rather than replaced by the default")
+	}
+	vsymReach("C16_flag_layer")
+}
